@@ -223,21 +223,27 @@ def _default_for(r, ctype):
         return "%d.5" % r.randrange(1, 9)
     if kind == "bool":
         return r.choice(["true", "false"])
-    return None
+    return '"dflt%d"' % r.randrange(1, 9)
 
 
-def _gen_overloads(r, lib, name, role, cls, novl, allow_defaults=True, rtypes=None, maxargs=3):
+NPARAMS = [0, 1, 1, 2, 2, 3, 3, 4, 4, 5, 5, 6]
+
+
+def _gen_overloads(r, lib, name, role, cls, novl, allow_defaults=True, rtypes=None, maxargs=6):
     """Overloads of one name such that no two offered signatures have the same C++ parameter types
-    (C++ itself would reject such a call as ambiguous)."""
+    (C++ itself would reject such a call as ambiguous).  0..6 parameters of mixed Lua types; the
+    first defaulted parameter is at any position 1..n (or none): every trailing run of defaults."""
     fns = []
     seen = set()
     tries = 0
-    while len(fns) < novl and tries < 60:
+    while len(fns) < novl and tries < 80:
         tries += 1
-        n = r.randrange(0, maxargs + 1)
+        n = min(r.choice(NPARAMS), maxargs)
         types = [r.choice(list(PTYPES)) for _ in range(n)]
-        ndef = r.choice([0, 0, 1, 2]) if allow_defaults else 0
-        ndef = min(ndef, n)
+        if allow_defaults and n and r.random() < 0.6:
+            ndef = r.randrange(1, n + 1)        # defaults start at position n - ndef + 1 (1-based)
+        else:
+            ndef = 0
         sigs = []
         ok = True
         for k in range(n - ndef, n + 1):
@@ -245,10 +251,6 @@ def _gen_overloads(r, lib, name, role, cls, novl, allow_defaults=True, rtypes=No
             if sig in seen or sig in sigs:
                 ok = False
             sigs.append(sig)
-        # a std::string parameter cannot carry a default here (Shroud's Lua pops have none)
-        for k in range(n - ndef, n):
-            if PTYPES[types[k]][0] == "string":
-                ok = False
         if not ok:
             continue
         uid = lib.new_uid()
@@ -373,18 +375,34 @@ def fixed_lualib(name="luafix"):
     # const char* converts to bool by a standard conversion: the string overload must still be reached
     hj = mk("hj", "free", None, [[P("const std::string &")], [P("bool")], [P("bool"), P("const std::string &")]],
             ["void", "void", "int"])
-    lib.free = f0 + g[:1] + h + g[1:] + same + z + hj
-    for nm, fs in (("f0", f0), ("g", g), ("h", h), ("same", same), ("z", z), ("hj", hj)):
+    # many parameters, several trailing defaults starting late, mixed tags; every arity from the
+    # first default on is a signature of its own
+    wide = mk("wide", "free", None,
+              [[P("int"), P("const std::string &"), P("double"), P("bool", "true"), P("int", "7"), P("double", "2.5")]],
+              ["int"])
+    wide2 = mk("wide2", "free", None,
+               [[P("bool"), P("int"), P("const std::string &"), P("double"), P("int", "4"), P("const std::string &", '"dflt1"')],
+                [P("const std::string &"), P("int"), P("bool"), P("bool", "false"), P("double", "1.5")],
+                [P("int", "1"), P("int", "2"), P("int", "3"), P("int", "4"), P("int", "5")]],
+               ["void", "double", "std::string"])
+    lib.free = f0 + g[:1] + h + g[1:] + same + z + hj + wide + wide2
+    for nm, fs in (("f0", f0), ("g", g), ("h", h), ("same", same), ("z", z), ("hj", hj), ("wide", wide),
+                   ("wide2", wide2)):
         lib.groups.append(Group(nm, "free", None, fs))
-    ct = mk("ctor", "ctor", "Foo", [[], [P("int")]], ["Foo", "Foo"])
+    ct = mk("ctor", "ctor", "Foo", [[], [P("int")], [P("const std::string &"), P("int"), P("double"), P("bool", "true"), P("int", "9")]],
+            ["Foo", "Foo", "Foo"])
     dt = mk("dtor", "dtor", "Foo", [[]], ["void"])
     m0 = mk("m0", "method", "Foo", [[]], ["int"])
     m1 = mk("m1", "method", "Foo", [[P("int")]], ["int"])
     m2 = mk("m2", "method", "Foo", [[P("int")], [P("const std::string &"), P("int", "3")]], ["void", "bool"])
     cm = mk("cm", "method", "Foo", [[P("double")]], ["bool"], const=True)
-    lib.classes.append(("Foo", ct + dt + m0 + m1 + m2 + cm))
+    mw = mk("mw", "method", "Foo",
+            [[P("bool"), P("int"), P("const std::string &"), P("double", "1.5"), P("int", "4")],
+             [P("int"), P("int"), P("int"), P("int"), P("bool", "true"), P("bool", "false")]],
+            ["int", "void"])
+    lib.classes.append(("Foo", ct + dt + m0 + m1 + m2 + cm + mw))
     lib.groups.append(Group("Foo", "ctor", "Foo", ct))
     lib.groups.append(Group("__gc", "dtor", "Foo", dt))
-    for nm, fs in (("m0", m0), ("m1", m1), ("m2", m2), ("cm", cm)):
+    for nm, fs in (("m0", m0), ("m1", m1), ("m2", m2), ("cm", cm), ("mw", mw)):
         lib.groups.append(Group(nm, "method", "Foo", fs))
     return lib
